@@ -610,6 +610,33 @@ def gen_bar(repo):
     out.append("end Mingus.Gen.Bar")
     return "\n".join(out) + "\n"
 
+# ---------------------------------------------------------------- containers.track / instrument
+def gen_track(repo):
+    t = parse(repo, "mingus/containers/track.py")
+    c = cls(t, "Track")
+    add = [ast.unparse(x) for x in body_wo_doc(method(c, "add_notes"))]
+    it = parse(repo, "mingus/containers/instrument.py")
+    ranges = []
+    for name in ("Instrument", "Piano", "Guitar", "MidiInstrument"):
+        k = cls(it, name)
+        for n in k.body:
+            if isinstance(n, ast.Assign) and getattr(n.targets[0], "id", None) == "range":
+                lo, hi = n.value.elts
+                ranges.append((name, lit(lo.args[0]), lit(lo.args[1]), lit(hi.args[0]), lit(hi.args[1])))
+    g = cls(it, "Guitar")
+    gmax = [ast.unparse(n.test) for n in ast.walk(method(g, "can_play_notes")) if isinstance(n, ast.If)]
+    comp = parse(repo, "mingus/containers/composition.py")
+    cc = cls(comp, "Composition")
+    comp_src = [ast.unparse(x) for m in ("add_track", "add_note") for x in body_wo_doc(method(cc, m))]
+    out = ["namespace Mingus.Gen.Track"]
+    out.append("def addNotesSource : List (List Char) := " + llist(lstr(x) for x in add))
+    out.append("def ranges : List (List Char × List Char × Int × List Char × Int) := " +
+               llist("(%s, %s, %s, %s, %s)" % (lstr(a), lstr(b), lint(c_), lstr(d), lint(e)) for a, b, c_, d, e in ranges))
+    out.append("def guitarLimit : List (List Char) := " + llist(lstr(x) for x in gmax))
+    out.append("def compositionSource : List (List Char) := " + llist(lstr(x) for x in comp_src))
+    out.append("end Mingus.Gen.Track")
+    return "\n".join(out) + "\n"
+
 GENERATORS = {
     "Notes": gen_notes,
     "Keys": gen_keys,
@@ -621,6 +648,7 @@ GENERATORS = {
     "Note": gen_note,
     "NoteContainer": gen_notecontainer,
     "Bar": gen_bar,
+    "Track": gen_track,
 }
 
 def main():
